@@ -318,6 +318,8 @@ def rule_tactic4_certificate(ctx: Ctx, rule: str = "tactic4-certificate", max_de
     prog = ctx.prog
     key = "PolyhedralTermList._tactic_4"
     fi = prog.func(key)
+    if ctx.tier == "thorough":
+        max_depth = max(max_depth, 4)  # 2 + 8 + 32 + 128 + 512 ... sign patterns: 2**(2*depth+3) runs at each depth
     n_ret = 0
     n_runs = 0
     for depth in range(0, max_depth + 1):
@@ -395,3 +397,164 @@ def rule_tactic4_certificate(ctx: Ctx, rule: str = "tactic4-certificate", max_de
 def _show_term(t: Rec) -> str:
     c = coefs(t)
     return " + ".join("(%s)*%s" % (v.show(), k) for k, v in sorted(c.items())) + " <= " + t.f["constant"].show()
+
+
+# ---------------------------------------------------------------------------
+# Context reduction (tactics 1 and 5): rows handed over by the selection are used as equalities
+# ---------------------------------------------------------------------------
+def _solve_rows_stub(ta: TermAlg, pos, kw):
+    """Spec of PolyhedralTerm.solve_for_variables (its docstring): read every row as an equality and solve for the
+    given variables; a solution v = sum b_u*u + d is returned as the term  sum b_u*u <= -d."""
+    tl, vs = pos[0], pos[1]
+    rows = tl.f["terms"].items
+    want = [v for v in vs.items if any(v in r.f["variables"].d for r in rows)]
+    if len(rows) != len(want):
+        raise Raised("ValueError")
+    others: List[Key] = []
+    for r in rows:
+        for k in r.f["variables"].d:
+            if k not in want and k not in others:
+                others.append(k)
+    m = ListV([ListV([r.f["variables"].d.get(v, num(0)) for v in want]) for r in rows])
+    out = DictV()
+    cols = []
+    for u in others + [None]:
+        rhs = ListV([(num(0) - r.f["variables"].d.get(u, num(0))) if u is not None else r.f["constant"] for r in rows])
+        cols.append(ta.linsolve(m, rhs))
+    for i, v in enumerate(want):
+        coefs_ = {u: cols[j].items[i] for j, u in enumerate(others) if not cols[j].items[i].is_zero()}
+        d = cols[-1].items[i]
+        out.d[v] = Rec(PT, {"variables": DictV(coefs_), "constant": num(0) - d})
+    return out
+
+
+def _reduction_patterns(prog: Program, strategy: int, nvars: int, refine: bool):
+    """Interpret _context_reduction on rows with symbolic coefficients under every sign pattern.
+    strategy 5: _get_tlp_context is interpreted, the LP replaced by 'status 0, every context row active';
+    strategy 1: the Kaykobad selection is replaced by an arbitrary one (every row is handed over).
+    Returns (returned, bad, undecided, patterns)."""
+    from itertools import product
+
+    from .ratnf import sign_under
+
+    fi = prog.func("PolyhedralTermList._context_reduction")
+    x, y, i = Key("x"), Key("y"), Key("i")
+    names = ["t1", "a1", "e1"] + (["s"] if nvars == 1 else ["t2", "a2", "e2"])
+    bad: List[str] = []
+    undec: List[str] = []
+    returned = 0
+    for combo in product([1, -1], repeat=len(names)):
+        signs = dict(zip(names, combo))
+        ta = TermAlg(prog)
+        ta.signs = {("sym", k): v for k, v in signs.items()}
+        if nvars == 1:
+            T = Rec(PT, {"variables": DictV({x: sym("t1"), i: sym("s")}), "constant": sym("c")})
+            rows = [Rec(PT, {"variables": DictV({x: sym("a1"), i: sym("e1")}), "constant": sym("c1")})]
+            forb = [x]
+        else:
+            T = Rec(PT, {"variables": DictV({x: sym("t1"), y: sym("t2")}), "constant": sym("c")})
+            rows = [
+                Rec(PT, {"variables": DictV({x: sym("a1"), i: sym("e1")}), "constant": sym("c1")}),
+                Rec(PT, {"variables": DictV({y: sym("a2"), i: sym("e2")}), "constant": sym("c2")}),
+            ]
+            forb = [x, y]
+        present = [k for k in (x, y, i) if any(k in r.f["variables"].d for r in rows) or k in T.f["variables"].d]
+        ta.stubs["PolyhedralTermList.termlist_to_polytope"] = lambda ta_, pos, kw, present=present: TupV([ListV(list(present)), ("opaque", "B"), ("opaque", "b"), ("opaque", "Bc"), ("opaque", "bc")])
+        ta.stubs["PolyhedralTerm.solve_for_variables"] = _solve_rows_stub
+        ta.ext_stubs["scipy.optimize.linprog"] = lambda ta_, pos, kw: DictV({("str", "status"): num(0), ("str", "slack"): ("opaque", "slack"), ("str", "fun"): ("opaque", "fun")})
+        ta.ext_stubs["numpy.isclose"] = lambda ta_, pos, kw: ("opaque", "mask")
+        ta.ext_stubs["numpy.where"] = lambda ta_, pos, kw, nrows=len(rows): TupV([ListV([num(k) for k in range(nrows)])])
+        if strategy == 1:
+            ta.stubs["PolyhedralTermList._get_kaykobad_context"] = lambda ta_, pos, kw, rows=rows, forb=forb: TupV([ListV(list(rows)), ListV(list(forb))])
+        desc = "term %s, rows %s, signs %s, refine=%s" % (_show_term(T), [_show_term(r) for r in rows], {k: ("+" if v > 0 else "-") for k, v in signs.items()}, refine)
+        try:
+            context = ta.construct("PolyhedralTermList", [ListV(list(rows))], {})
+            res = ta.call(fi, [T, context, ListV(list(forb)), refine, num(strategy)])
+        except Raised as r:
+            if r.cls not in ("ValueError", "LinAlgError"):
+                bad.append("%s: raises %s" % (desc, r.cls))
+            continue
+        except (Undecidable, AnalysisError) as ex:
+            undec.append("%s: %s" % (desc, ex))
+            continue
+        if not isinstance(res, Rec):
+            continue
+        returned += 1
+        rc = coefs(res)
+        if any(v.name in rc for v in forb):
+            bad.append("%s: the returned term still mentions a forbidden variable" % desc)
+            continue
+        mus = [sym("t%d" % (k + 1)) / sym("a%d" % (k + 1)) for k in range(nvars)]
+        # residuals: T - (R + sum mu_k row_k) must vanish on every variable and on the constant
+        ok_alg = True
+        for v in (x, y, i):
+            tot = rc.get(v.name, num(0))
+            for mu, row in zip(mus, rows):
+                tot = tot + mu * row.f["variables"].d.get(v, num(0))
+            if not (T.f["variables"].d.get(v, num(0)) - tot).is_zero():
+                ok_alg = False
+        totc = res.f["constant"]
+        for mu, row in zip(mus, rows):
+            totc = totc + mu * row.f["constant"]
+        if not (T.f["constant"] - totc).is_zero():
+            ok_alg = False
+        if not ok_alg:
+            bad.append("%s: the returned term %s is not the term minus a combination of the rows" % (desc, _show_term(res)))
+            continue
+        sg = [sign_under(mu, ta.signs) for mu in mus]
+        wrong = [k for k, s_ in enumerate(sg) if (s_ < 0 if refine else s_ > 0)]
+        if wrong:
+            bad.append(
+                "%s: returns %s, obtained with a %s multiple of row %s - the result %s the term"
+                % (desc, _show_term(res), "negative" if refine else "positive", ", ".join(str(k + 1) for k in wrong), "does not imply" if refine else "is not implied by")
+            )
+    return returned, bad, undec, 2 ** len(names)
+
+
+_ARBITRARY_ROWS_CACHE: Dict[str, Optional[bool]] = {}
+
+
+def reduction_sound_for_arbitrary_rows(prog: Program) -> Optional[bool]:
+    """Does _context_reduction itself make sure that rows enter with the right sign, whatever rows the Kaykobad
+    selection hands over?  True: soundness does not rest on the selection's guards; False: it does; None: undecided."""
+    if prog.digest in _ARBITRARY_ROWS_CACHE:
+        return _ARBITRARY_ROWS_CACHE[prog.digest]
+    verdict: Optional[bool] = True
+    try:
+        for nvars in (1, 2):
+            for refine in (True, False):
+                returned, bad, undec, _n = _reduction_patterns(prog, 1, nvars, refine)
+                if bad:
+                    verdict = False
+                elif undec and verdict:
+                    verdict = None
+    except AnalysisError:
+        verdict = None
+    _ARBITRARY_ROWS_CACHE[prog.digest] = verdict
+    return verdict
+
+
+def rule_context_reduction_certificate(ctx: Ctx, rule: str = "context-reduction-certificate") -> None:
+    """C01/C02/C04: _context_reduction replaces the forbidden variables of a term through rows handed over by the
+    row selection of tactic 5 (rows that are active at an LP optimum - activity says nothing about the sign with which
+    a row enters the combination).  Whatever is returned must follow from the term's replacement by a combination of
+    those rows with multipliers of the right sign (refine: term = result + sum m_k*row_k with m_k >= 0; relax: m_k <= 0).
+    Decided by interpreting _context_reduction and _get_tlp_context on rows with symbolic coefficients under every
+    sign pattern, with the LP replaced by 'status 0, every context row active' and sympy's solver by its spec."""
+    prog = ctx.prog
+    key = "PolyhedralTermList._context_reduction"
+    fi = prog.func(key)
+    n_ret = 0
+    for nvars in (1, 2):
+        for refine in (True, False):
+            returned, bad, undec, total = _reduction_patterns(prog, 5, nvars, refine)
+            n_ret += returned
+            construct = "_context_reduction (strategy 5, %s, %d forbidden variable%s): rows enter the combination with the right sign" % ("refine" if refine else "relax", nvars, "" if nvars == 1 else "s")
+            if bad:
+                ctx.violation(rule, key, construct, "%d of %d returning sign patterns are unsound; first: %s" % (len(bad), returned, bad[0]), where=fi.where)
+            elif undec:
+                ctx.cannot_decide(rule, key, construct, undec[0])
+            else:
+                ctx.ok(rule, key, construct + " (%d returning patterns of %d)" % (returned, total))
+    ctx.extra["reduction_sound_for_arbitrary_rows"] = reduction_sound_for_arbitrary_rows(prog)
+    ctx.floor("context-reduction returning sign patterns", n_ret, 8)
